@@ -194,16 +194,41 @@ def impl_pmreq(case):
                 peer.buf = getattr(peer, "buf", b"") + data
                 while b"\r\n\r\n" in peer.buf:
                     peer.buf = peer.buf.split(b"\r\n\r\n", 1)[1]
+                    if failing.get(sock.origin):
+                        failing[sock.origin] = False
+                        peer.eof()                     # the server drops the connection instead of answering
+                        return
                     peer.send(http_response(200, "OK", [], b"ok"))
             return Peer(on_data)
 
     net = NetK()
+    failing = {}
     kept = []
+    held = []
     out = []
     with installed(net):
-        pm = urllib3.PoolManager(num_pools=case["num_pools"])
+        pm = urllib3.PoolManager(num_pools=case["num_pools"], maxsize=case.get("maxsize", 1))
         for o in case["ops"]:
-            if o[0] == "req":
+            if o[0] == "hold":
+                # a streamed response the caller has not read yet: it owns its connection
+                held.append(pm.request("GET", url_of(o[1]), retries=False, preload_content=False))
+                out.append([[1, held[-1].status], len(pm.pools)])
+            elif o[0] == "finish":
+                if held:
+                    r = held.pop(0)
+                    r.read()
+                    r.release_conn()
+                    del r
+                out.append([[2], len(pm.pools)])
+            elif o[0] == "fail":
+                failing[o[1]] = True
+                try:
+                    pm.request("GET", url_of(o[1]), retries=False)
+                    out.append([[3, 0], len(pm.pools)])
+                except urllib3.exceptions.HTTPError:
+                    out.append([[3, 1], len(pm.pools)])
+                failing[o[1]] = False
+            elif o[0] == "req":
                 r = pm.request("GET", url_of(o[1]), retries=False)
                 out.append([[1, r.status], len(pm.pools)])
                 if o[2]:
@@ -212,6 +237,11 @@ def impl_pmreq(case):
             else:
                 pm.clear()
                 out.append([[0], len(pm.pools)])
+        while held:
+            r = held.pop(0)
+            r.read()
+            r.release_conn()
+            del r
         idle = {}
         with pm.pools.lock:
             for p in pm.pools._container.values():
@@ -441,7 +471,9 @@ def oracle(case, obs):
         audit = _STASH.pop(id(case), None)
         ref = RefLRU(case["num_pools"])
         for i, o in enumerate(case["ops"]):
-            r = ref.apply(["goc", o[1], 0] if o[0] == "req" else o)
+            if o[0] == "finish":
+                continue
+            r = ref.apply(["goc", o[1], 0] if o[0] in ("req", "hold", "fail") else o)
             if obs[i][1] != len(ref.items):
                 return "PoolManager op #%d %r: %d pools cached, reference LRU cache says %d" % (i, o, obs[i][1], len(ref.items))
         return audit
@@ -589,6 +621,29 @@ def cases(rng, tier):
         for j in range(rng.randint(2, 7)):
             ops.append(["clear"] if rng.random() < 0.12 else ["req", rng.choice(KEYS), rng.random() < 0.3])
         out.append({"kind": "pmreq", "num_pools": m, "ops": ops})
+    # pools with two slots: streamed responses held across other requests, and connections the server drops, leave live connections
+    # below empty slots in a pool's queue before the pool is evicted or cleared
+    for tail in ([["req", 2, False]], [["clear"]], [["req", 2, False], ["req", 3, False]]):
+        for m in (1, 2):
+            out.append({"kind": "pmreq", "num_pools": m, "maxsize": 2, "ops": [["hold", 1], ["req", 1, False], ["finish"], ["fail", 1]] + tail})
+            out.append({"kind": "pmreq", "num_pools": m, "maxsize": 3, "ops": [["hold", 1], ["hold", 1], ["req", 1, False], ["finish"], ["fail", 1], ["finish"], ["fail", 1]] + tail})
+    for i in range(npm // 2):
+        m = rng.choice([1, 2])
+        ops = []
+        nheld = 0
+        for j in range(rng.randint(3, 9)):
+            x = rng.random()
+            if x < 0.1:
+                ops.append(["clear"])
+            elif x < 0.3:
+                ops.append(["hold", rng.choice(KEYS[:2])]); nheld += 1
+            elif x < 0.5 and nheld:
+                ops.append(["finish"]); nheld -= 1
+            elif x < 0.7:
+                ops.append(["fail", rng.choice(KEYS[:2])])
+            else:
+                ops.append(["req", rng.choice(KEYS[:3]), rng.random() < 0.2])
+        out.append({"kind": "pmreq", "num_pools": m, "maxsize": rng.choice([2, 3]), "ops": ops})
     for i in range(npm // 2):
         nt = rng.choice([2, 3])
         m = rng.choice([1, 2])
